@@ -96,9 +96,9 @@ def check_case(acc, chain_l, locking, env_seq, split=None, units=None, init=None
     obs = m.observe()
     name = menu.chain_name(chain_l)
     if len(obs['time']) != n:
-        acc.violation('C03/harness/instant-count', 'harness expected n instants', case,
-                      {'got': len(obs['time']), 'expected': n})
-        return
+        # the number of instants is C11's business: judge the transitions that exist
+        acc.outcomes['instant-count-differs-from-request'] += 1
+        n = min(n, len(obs['time']))
 
     def emit(sfx, clause, k, detail):
         dd = dict(detail)
